@@ -315,13 +315,21 @@ def _json_loads_sym(s):
         vals = None
     if vals is not None:
         return _json.loads(''.join(map(chr, vals)) if s.kind is str else bytes(vals))
+    # not determined: exact on a small catalogue of JSON texts of this length
+    # (an object, an array, a number -- padded with blanks), everything else is
+    # *assumed* invalid.  Paths are flagged; only exception-type claims are made.
     ctx.flag('stubbed:json.loads')
-    k = ctx.choose(0, 2, 'json.loads')
-    if k == 0:
-        return SymDict()
-    if k == 1:
-        return []
-    raise _json.JSONDecodeError('sx stub', 'x', 0)
+    L = len(s.el)
+    mk = (lambda t: t) if s.kind is str else (lambda t: t.encode('ascii'))
+    for body in ('{}', '[]', '0', '{"a": 1}', 'null'):
+        for tail in ('\n', '\r\n'):
+            if len(body) + len(tail) > L:
+                continue
+            cand = body + ' ' * (L - len(body) - len(tail)) + tail
+            if bool(s == mk(cand)):
+                return _json.loads(cand)
+    ctx.flag('stubbed:json.loads:assumed-invalid')
+    raise _json.JSONDecodeError('sx stub: assumed invalid', 'x', 0)
 
 
 # ------------------------------------------------------------------ call dispatch
